@@ -183,13 +183,37 @@ def fam_cont(rnd, n):
         for who in (["p"] if lvl == "p" else ["b1"] if lvl == "b1" else ["p", "b1"]):
             k = rnd.choice([0, 0, 1, 2, 2, 3, 3, 4])
             if k:
-                out["%s.cont.a1" % who] = ["ok"] * (k - 1) + ["perm"]
+                # a failure is final for the scope even if the check would pass again afterwards
+                out["%s.cont.a1" % who] = ["ok"] * (k - 1) + ["perm"] + (["ok"] if rnd.random() < 0.5 else [])
         for a in seq_actions(sh):
             lat[a] = [rnd.choice([300, 1000, 2500])]
         if rnd.random() < 0.2:
             out[rnd.choice(seq_actions(sh))] = ["perm"]
         mode = "quiet" if i % 2 == 0 else "free"
         res.append(scn(sh, mode, out, lat=lat, tag="cont", contdelay=rnd.choice([50, 150, 400]), latmax=200, quiet=rnd.choice([800, 1500])))
+    return res
+
+
+def fam_cont_exit(rnd, n):
+    """A continuous check fails while a LONG sequence is still executing and shorter ones come and go (concurrency 2):
+    the launch loop notices the failure between two launches and leaves; whatever is still running must have
+    finished before the deferred checks start, before the scope ends and before Wait returns."""
+    res = []
+    for i in range(n):
+        lvl = rnd.choice(["p", "b1"])
+        pg = {"cont": 1} if lvl == "p" else {}
+        bg = {"cont": 1} if lvl == "b1" else {}
+        (pg if rnd.random() < 0.5 else bg)["deferred"] = 1
+        if rnd.random() < 0.3:
+            bg["post"] = 1
+        ns = rnd.choice([3, 4, 5])
+        sh = shape([blk([1] * ns, conc=2, tol=0, g=bg)] + ([blk([1])] if rnd.random() < 0.3 else []), pg=pg)
+        lat = {"b1.s1.a1": [rnd.choice([9000, 14000])]}
+        for q in range(2, ns + 1):
+            lat["b1.s%d.a1" % q] = [rnd.choice([800, 1500, 2500])]
+        k = rnd.choice([2, 3, 4, 5, 6, 8])
+        out = {"%s.cont.a1" % lvl: ["ok"] * k + ["perm"]}
+        res.append(scn(sh, "free", out, lat=lat, tag="cont-exit", contdelay=rnd.choice([200, 400]), latmax=150, waitms=6000))
     return res
 
 
